@@ -97,7 +97,7 @@ inline int MPI_Allreduce(const void* in, void* out, int n, MPI_Datatype t, MPI_O
     size_t es = simmpi_detail::dt_size(t);
     if (!w) { if (in != MPI_IN_PLACE) memcpy(out, in, n * es); return 0; }
     std::string tmp;
-    if (in == MPI_IN_PLACE) { tmp.assign((const char*)out, n * es); in = tmp.data(); }
+    if (in == MPI_IN_PLACE) { tmp.resize(n * es); if (n * es) memcpy(&tmp[0], out, n * es); in = tmp.data(); }
     w->reduce(c, 0, (const char*)in, (char*)out, n, es, true, simmpi_detail::c_combiner(t, op));
     return 0;
 }
@@ -106,7 +106,7 @@ inline int MPI_Reduce(const void* in, void* out, int n, MPI_Datatype t, MPI_Op o
     size_t es = simmpi_detail::dt_size(t);
     if (!w) { if (in != MPI_IN_PLACE) memcpy(out, in, n * es); return 0; }
     std::string tmp;
-    if (in == MPI_IN_PLACE) { tmp.assign((const char*)out, n * es); in = tmp.data(); }
+    if (in == MPI_IN_PLACE) { tmp.resize(n * es); if (n * es) memcpy(&tmp[0], out, n * es); in = tmp.data(); }
     w->reduce(c, root, (const char*)in, (char*)out, n, es, false, simmpi_detail::c_combiner(t, op));
     return 0;
 }
